@@ -153,6 +153,16 @@ func verifyHeader(
 		)
 	}
 
+	// the header index ignores revision numbers (the block hash does not cover them): a header is one height above
+	// its parent only if it stays in the parent's revision, otherwise one block could be stored under several
+	// consensus-state heights and abandoned branches would keep their roots under another revision
+	if header.Height.RevisionNumber != parentHeader.Height.RevisionNumber {
+		return sdkerrors.Wrapf(
+			clienttypes.ErrInvalidHeader,
+			"header revision number %d differs from its parent's %d", header.Height.RevisionNumber, parentHeader.Height.RevisionNumber,
+		)
+	}
+
 	// Verify the header's timestamp
 	if header.Time > uint64(ctx.BlockTime().Add(allowedFutureBlockTime).Unix()) {
 		return ErrFutureBlock
